@@ -193,6 +193,7 @@ class World:
         self.clock_positions = set()
         self._shadow = {}
         self._mock_obj = None
+        self._mock_cm = None
         warnings.simplefilter("ignore")
         self.reset({})
 
@@ -335,6 +336,7 @@ class World:
         self.set_reg("locale", "en")
         self.set_reg("week_start", 0)
         self.set_reg("week_end", 6)
+        self._mock_cm = None
         self.set_reg("mock_tz", None)
         calendar.setfirstweekday(0)
         self.fs.load(cfg.get("fs"))
